@@ -19,6 +19,7 @@ from harness import core
 from harness import coqemit as E
 from harness import fieldgen as G
 from harness import structgen as S
+from harness import c01lat as L
 
 ALLOWED_INTERNAL = ("_instantiated", "_none_fields")
 
@@ -212,7 +213,12 @@ def gen_kw(rnd, c_ast, ctx, fields, mode):
         i = rnd.randrange(len(kw))
         fd = [f for f in fields if f["name"] == kw[i][0]][0]
         try:
-            kw[i][1] = freeze_some(rnd, G.corrupt(rnd, fd["field"], kw[i][1], ctx.instances))
+            if rnd.random() < 0.5:
+                # a value ON or JUST OUTSIDE the acceptance boundary of the declaration governing one
+                # (possibly nested) position: harness/c01lat.py
+                kw[i][1] = freeze_some(rnd, L.corrupt_near(rnd, fd["field"], kw[i][1]))
+            else:
+                kw[i][1] = freeze_some(rnd, G.corrupt(rnd, fd["field"], kw[i][1], ctx.instances))
         except Exception:  # noqa
             kw[i][1] = G.gen_any(rnd)
     elif mode == "none":
@@ -529,6 +535,48 @@ def evaluate(items, tag="c01", per=150):
     return out
 
 
+def localise(cases, tag="c01loc"):
+    """cases: [(ctx, step)] (violations).  For each: positions of the non-conforming attributes in the
+    observed instance's attribute list (Check/C01chk.v sbad_attrs).  Only used to NAME a violation."""
+    if not cases:
+        return []
+    if len(cases) > 100:
+        return localise(cases[:100], tag) + localise(cases[100:], tag)
+    ctxs = []
+    for ctx, _ in cases:
+        if ctx not in ctxs:
+            ctxs.append(ctx)
+    body = emit_env(ctxs)
+    for i, (ctx, st) in enumerate(cases):
+        body += "Definition lc%d : scase := %s.\nEval vm_compute in (sbad_attrs lc%d).\n" % (i, emit_case(ctx, st), i)
+    try:
+        (rc, so, se), = core.eval_cases([body], tag, HEADER)
+        vals = core.parse_eval(so)
+        if rc != 0 or len(vals) != len(cases):
+            return [None] * len(cases)
+        return [core.parse_nat_list(v) for v in vals]
+    except Exception:  # noqa
+        return [None] * len(cases)
+
+
+def key_shape(f, depth=0):
+    """Nested kind names of a declaration (no constraint values): names the input shape of a finding."""
+    t = f["t"]
+    if t == "num":
+        return "num:" + f["k"]
+    if t == "set" and f.get("imm"):
+        t = "set:imm"
+    if depth >= 3:
+        return t
+    subs = []
+    for key in ("item", "kf", "vf"):
+        if isinstance(f.get(key), dict):
+            subs.append(key_shape(f[key], depth + 1))
+    for key in ("items", "fs"):
+        subs += [key_shape(g, depth + 1) for g in f.get(key) or []]
+    return t + ("(" + ",".join(subs) + ")" if subs else "")
+
+
 # ------------------------------------------------------------------ keys of findings
 
 def find_collisions(f, v, acc):
@@ -616,7 +664,7 @@ def copied_pair(step):
     return None
 
 
-def violation_key(ctx, step, unstable):
+def violation_key(ctx, step, unstable, bad=None):
     en, cur_r, out, _flags = step
     inst = out[1]
     kind = en[0]
@@ -647,20 +695,28 @@ def violation_key(ctx, step, unstable):
             return "C01/normalised-collision/" + sorted(set(a.split(">")[-1] for a in acc))[0]
         return "C01/normalised-collision/unlocated/" + kind
     extra = ""
+    where = ""
     if inst[0] == "struct":
         try:
-            names = [fd["name"] for fd in ctx.all_fields(inst[1])]
-            und = [k for k, _ in inst[2] if k not in names]
+            decl = {fd["name"]: fd["field"] for fd in ctx.all_fields(inst[1])}
+            und = [k for k, _ in inst[2] if k not in decl]
             if und:
                 extra = "/attrs:" + ",".join(sorted(k if k.startswith("_") else "<extra>" for k in und))
+            if bad is not None:
+                shapes = sorted(set(key_shape(decl[inst[2][i][0]]) for i in bad
+                                    if i < len(inst[2]) and inst[2][i][0] in decl))
+                # which declaration the stored value does not conform to; none located: _required, the
+                # __validate__ hook, or an instance nested inside
+                where = "/" + (shapes[0] if shapes else ("undeclared" if und else "required-hook-or-nested"))
         except KeyError:
             pass
-    return "C01/invalid-instance/%s%s" % (kind, extra)
+    return "C01/invalid-instance/%s%s%s" % (kind, where, extra)
 
 
-def python_src(ctx, chain):
+def python_src(ctx, chain, env=None):
+    src = ctx.source() if env is None else "".join(S.class_src(c) + "\n" for c in [dict(c) for c in ctx.BASE] + list(env))
     lines = [G.IMPORTS, "import copy, pickle\nfrom typedpy import Deserializer, Serializer, deserialize_structure\n",
-             ctx.source(), "x = None"]
+             src, "x = None"]
     for en in chain:
         k = en[0]
         kws = lambda kw: ", ".join("%s=%s" % (n, G.py_src(v)) for n, v in kw)
@@ -720,6 +776,37 @@ def replay(obj):
 
 # ------------------------------------------------------------------ the check
 
+def minimal_env(asts, chain):
+    """The class ASTs a chain mentions (and their bases): keeps replay files small."""
+    by = {a["name"]: a for a in asts}
+    need = set()
+    for en in chain:
+        for part in en[1:]:
+            if isinstance(part, str) and part in by:
+                need.add(part)
+    grew = True
+    while grew:
+        grew = False
+        for n in list(need):
+            b = by[n].get("base")
+            if b in by and b not in need:
+                need.add(b)
+                grew = True
+            for fd in by[n]["fields"]:
+                stack = [fd["field"]]
+                while stack:
+                    f = stack.pop()
+                    if f.get("t") == "ref" and f["cls"] in by and f["cls"] not in need:
+                        need.add(f["cls"])
+                        grew = True
+                    for key in ("item", "kf", "vf"):
+                        if isinstance(f.get(key), dict):
+                            stack.append(f[key])
+                    for key in ("items", "fs"):
+                        stack += list(f.get(key) or [])
+    return [a for a in asts if a["name"] in need]
+
+
 def run(rep, tier):
     rnd = random.Random(core.seed() * 1000003 + 1)
     n_env = 160 if tier == "quick" else 1500
@@ -731,6 +818,51 @@ def run(rep, tier):
     ctxs = []
     n_chains = 0
     rejected_envs = 0
+
+    def add_chain(ctx, env, chain, stream, shape_key):
+        steps = run_chain(ctx, chain)
+        rep.stat(stream, "executed-length:%d" % len(steps))
+        for si, st in enumerate(steps):
+            en, cur_r, out, flags = st
+            for fl in flags:
+                rep.stat(stream, "not-compared:" + fl)
+            items.append((ctx, st))
+            where.append((env, chain, si))
+            okind = "ok" if out[0] == "ok" else out[1]
+            rep.count(stream, 1, (en[0], okind, shape_key, len(en[1]) if en[0] == "clone" else 0))
+            rep.stat(stream, "entry:" + en[0])
+            rep.stat(stream, "outcome:" + okind)
+        return steps
+
+    # ---- stream 1: the boundary lattice, every near-miss value through every entry point (deterministic)
+    n_lat = 0
+    lat_decl = 0
+    for pre, asts, build in L.lattice(tier, core.seed()):
+        try:
+            ctx = Ctx(asts)
+        except Exception as ex:  # noqa   a lattice declaration the library refuses to define
+            rep.stat("lattice", "group-rejected:" + type(ex).__name__)
+            continue
+        ctxs.append(ctx)
+        lat_decl += len(asts) - 1
+
+        def find_good(cname, cands, ctx=ctx):
+            for x in cands:
+                try:
+                    ctx.classes[cname](f=G.unreify(x, ctx.classes))
+                    return x
+                except Exception:  # noqa
+                    continue
+            return None
+        for wname, leaf_shape, chain in build(find_good):
+            add_chain(ctx, minimal_env(asts, chain), chain, "lattice", (wname, leaf_shape))
+            rep.stat("lattice", "wrapper:" + wname)
+            n_lat += 1
+    rep.cov["streams"].setdefault("lattice", {"evaluations": 0})
+    rep.cov["streams"]["lattice"].update({"chains": n_lat, "declarations": lat_decl})
+    n_lattice_items = len(items)
+
+    # ---- stream 2: random environments of related classes, random chains
     for idx in range(n_env):
         for _try in range(6):
             env = gen_env(rnd, idx * 10 + _try, max_depth)
@@ -745,26 +877,18 @@ def run(rep, tier):
         ctxs.append(ctx)
         for _ in range(per_env):
             chain = gen_chain(rnd, ctx, env)
-            steps = run_chain(ctx, chain)
+            add_chain(ctx, env, chain, "steps", tuple(sorted(G.shape(fd["field"]) for fd in env[0]["fields"]))[:3])
             n_chains += 1
-            rep.stat("chains", "executed-length:%d" % len(steps))
-            for si, st in enumerate(steps):
-                en, cur_r, out, flags = st
-                for fl in flags:
-                    rep.stat("steps", "not-compared:" + fl)
-                items.append((ctx, st))
-                where.append((env, chain, si))
-                okind = "ok" if out[0] == "ok" else out[1]
-                rep.count("steps", 1, (en[0], okind, tuple(sorted(G.shape(fd["field"]) for fd in env[0]["fields"]))[:3],
-                                       len(en[1]) if en[0] == "clone" else 0))
-                rep.stat("steps", "entry:" + en[0])
-                rep.stat("steps", "outcome:" + okind)
     rep.cov["streams"].setdefault("steps", {"evaluations": 0})
     rep.cov["streams"]["steps"].update({"chains": n_chains, "environments": len(ctxs),
                                         "class_statements_rejected": rejected_envs})
     if items:
         env, chain, _ = where[0]
-        rep.sample({"classes": ctxs[0].source()[-1500:], "chain": chain, "observed": repr(items[0][1][2])[:400]})
+        rep.sample({"stream": "lattice", "chain": chain, "observed": repr(items[0][1][2])[:400]})
+        if len(items) > n_lattice_items:
+            env, chain, _ = where[n_lattice_items]
+            rep.sample({"classes": items[n_lattice_items][0].source()[-1500:], "chain": chain,
+                        "observed": repr(items[n_lattice_items][1][2])[:400]})
         env, chain, _ = where[-1]
         rep.sample({"chain": chain, "observed": repr(items[-1][1][2])[:400]})
     if model_ok:
@@ -775,13 +899,21 @@ def run(rep, tier):
             rep.broken("correspondence:run_entry/coq-eval", str(ex))
         if r is not None:
             s = rep.cov["streams"]["steps"]
-            acc = sum(1 for _, st in items if st[2][0] == "ok")
-            s.update({"accepted": acc, "in_statement_domain": len(r["sin_dom"]),
-                      "in_theorem_domain": len(r["sin_thm_dom"]), "model_declines": len(r["sunmodelled"]),
+            lat_idx = set(range(n_lattice_items))
+            rep.cov["streams"]["lattice"].update({
+                "accepted": sum(1 for _, st in items[:n_lattice_items] if st[2][0] == "ok"),
+                "in_statement_domain": len(set(r["sin_dom"]) & lat_idx),
+                "in_theorem_domain": len(set(r["sin_thm_dom"]) & lat_idx),
+                "model_declines": len(set(r["sunmodelled"]) & lat_idx)})
+            acc = sum(1 for _, st in items[n_lattice_items:] if st[2][0] == "ok")
+            rnd_n = lambda name: len([i for i in r[name] if i >= n_lattice_items])
+            s.update({"accepted": acc, "in_statement_domain": rnd_n("sin_dom"),
+                      "in_theorem_domain": rnd_n("sin_thm_dom"), "model_declines": rnd_n("sunmodelled"),
                       "copy_raised_not_compared": len(r["scopy_raised"]),
                       "unstable_input_rejected_by_typedpy_only_not_compared": len(r["sstricter"])})
-            if not (0.3 <= acc / max(1, len(items)) <= 0.9):
-                rep.broken("generator:accept-rate", "accept rate %.2f outside [0.3, 0.9]: inconclusive" % (acc / max(1, len(items))))
+            n_rand = max(1, len(items) - n_lattice_items)
+            if not (0.3 <= acc / n_rand <= 0.9):
+                rep.broken("generator:accept-rate", "accept rate %.2f outside [0.3, 0.9]: inconclusive" % (acc / n_rand))
             unstable = set(r["sunstable"])
             # validation-bypass flags must never survive on an instance handed out by a validating
             # entry point (with _additional_properties=True the Coq spec would take them for extras)
@@ -793,15 +925,17 @@ def run(rep, tier):
                         rep.finding("C01/invalid-instance/%s/attrs:%s" % (st[0][0], ",".join(flags)),
                                     "entry point %s hands out an instance that still carries %s" % (st[0][0], flags),
                                     {"env": env, "chain": chain[:si + 1], "failing_step": si, "observed": st[2],
-                                     "python": python_src(ctx, chain[:si + 1])})
+                                     "python": python_src(ctx, chain[:si + 1], env)})
+            loc_idx = [i for i in r["sviolation"] if i not in unstable][:1000]
+            located = dict(zip(loc_idx, localise([items[i] for i in loc_idx])))
             for i in r["sviolation"]:
                 ctx, st = items[i]
                 env, chain, si = where[i]
-                key = violation_key(ctx, st, i in unstable)
+                key = violation_key(ctx, st, i in unstable, located.get(i))
                 rep.finding(key, "entry point %s yields an instance its own declaration rejects (step %d of %s)" % (
                     st[0][0], si, [e[0] for e in chain]),
                     {"env": env, "chain": chain[:si + 1], "failing_step": si, "observed": st[2],
-                     "python": python_src(ctx, chain[:si + 1])})
+                     "python": python_src(ctx, chain[:si + 1], env)})
             rep.obligation("spec-on-observed:inst_ok+deep_valid",
                            not any(not v["no_input"] for v in rep.violations),
                            "%d accepted in-domain steps, %d spec failures" % (
@@ -822,7 +956,7 @@ def run(rep, tier):
                            "model (Struct/Entry.v, Struct/Instance.v) and typedpy differ on %d generated steps "
                            "(entry kinds %s); the spec holds on every explored input" % (len(r["smismatch"]), kinds),
                            {"env": env, "chain": chain[:si + 1], "failing_step": si, "observed": st[2],
-                            "python": python_src(ctx, chain[:si + 1])})
+                            "python": python_src(ctx, chain[:si + 1], env)})
     for ctx in ctxs:
         ctx.close()
     if not proofs_ok:
